@@ -950,7 +950,8 @@ def check_c08(prog, rep, tier, cfg):
         else:
             o = Origins(b).of_operand(rv["op"]) if rv["k"] == "use" else set()
             names = {x[2] for x in o if x[0] == "call"}
-            ok = bool(o) and all((x[0] == "call" and x[2].startswith(TS)) or (x[0] == "agg" and x[3] in ("adt:core::option::Option::Some", "adt:core::option::Option::None")) for x in o)
+            ok = bool(o) and all((x[0] == "call" and x[2].startswith(TS)) or (x[0] == "agg" and x[3] in ("adt:core::option::Option::Some", "adt:core::option::Option::None"))
+                                 or (x[0] == "const" and x[1] == "int" and x[2] in (0, 1)) for x in o)
             rep.check(ok, R, "spaces-value:%s:table" % short(b.npath).split("::")[-1], "spaces_before is set from %s (allowed: results of the spacing table functions)" % sorted(map(str, o)),
                       instance={"body": short(b.npath), "value_from": sorted(short(x) for x in names)})
     rep.floor(R, "stores to spaces_before", n, 5)
